@@ -1,7 +1,7 @@
 (* Property C13 — wiring invariants hold for every size and seed.
    Random draws are universally quantified: "every seed" = every permutation / every in-range draw. *)
 From Coq Require Import String List Arith Bool Permutation.
-From TLX Require Import Model.Wiring Proofs.WiringFacts.
+From TLX Require Import Model.Wiring Proofs.WiringFacts Proofs.SlicesFacts.
 Import ListNotations.
 
 (* dense 'unique': no neuron wired to one input twice (a < b), all wires exist, no two neurons share a pair *)
@@ -19,6 +19,13 @@ Proof. exact unique_connections_rejects. Qed.
    kernel-checked for every (in_dim, out_dim) with in_dim <= 24 — a bounded statement, the bound is in the theorem *)
 Theorem C13_unique_slices_upto_24 : forallb slices_agree (seq 2 23) = true.
 Proof. exact slices_agree_upto_24. Qed.
+
+(* ... and for EVERY in_dim and out_dim in the accepted domain (induction over the offsets consumed by the while loop; the
+   loop terminates within in_dim iterations because all in_dim*(in_dim-1)/2 pairs have been produced by then) *)
+Theorem C13_unique_slices : forall n m, 2 <= n -> n <= 2 * m -> m <= n * (n - 1) / 2 ->
+  exists a b, unique_slices n m = Some (a, b) /\ length a = m /\ length b = m /\
+    combine a b = firstn m (all_pairs n).
+Proof. exact unique_slices_closed_form. Qed.
 
 (* dense 'random': all wires exist; every input is used whenever 2*out_dim >= in_dim *)
 Theorem C13_random_range : forall n m p1 p2, 0 < n ->
@@ -65,6 +72,7 @@ Proof. repeat split; vm_compute; reflexivity. Qed.
 
 Eval compute in "PA:C13_unique"%string. Print Assumptions C13_unique.
 Eval compute in "PA:C13_unique_rejects"%string. Print Assumptions C13_unique_rejects.
+Eval compute in "PA:C13_unique_slices"%string. Print Assumptions C13_unique_slices.
 Eval compute in "PA:C13_unique_slices_upto_24"%string. Print Assumptions C13_unique_slices_upto_24.
 Eval compute in "PA:C13_random_range"%string. Print Assumptions C13_random_range.
 Eval compute in "PA:C13_random_cover"%string. Print Assumptions C13_random_cover.
